@@ -43,7 +43,7 @@ def main(argv: list[str]) -> int:
         for cex in r["refuted"]:
             cex["replay"] = core.run_concrete(fn, u.get("params", {}), cex["inputs"])
         res.update(r)
-        res["functions"] = sorted(core.FUNCS_SEEN)
+        res["functions"] = sorted(f for f in core.FUNCS_SEEN if not f.endswith(":<module>"))
         res["ok"] = True
     except MemoryError:
         res["ok"] = False
